@@ -1,12 +1,11 @@
 (* Model.Expr — common definitions of the Gallina port of JMC's expression assignment
-   (`$v := expr`, `:+= :-= :*= :/= :%=`; src/jmc/compile/expression_eval.py and
-   var_operation.py:265-356).  Property C02.
+   (`$v := expr`, `:+= :-= :*= :/= :%=`; src/jmc/compile/expression_eval.py and the expression
+   branch of var_operation.py), as repaired by fixes/C02-01 .. C02-09.  Property C02.
 
    This file: operator contents (Python strings "", "+", "-", "*", "/", "%", "**") with the
-   substring tests the code performs on them, the outcome monad (a JMC diagnostic, an escaping
-   Python exception and "outside the model" are explicit results, never a normal-looking
-   value), the tags carried by the branches that can produce wrong output, and the model of
-   `eval_expr` (command/utils.py:506-562) on the strings the pipeline builds. *)
+   substring tests the code still performs on them, the outcome monad (a JMC diagnostic, an escaping
+   Python exception and "outside the model" are explicit results, never a normal-looking value),
+   the tags carried by the branches that can produce wrong output, and `fold_constants`. *)
 From Coq Require Import ZArith String List Bool.
 From JMCV Require Import Base.Int32 Base.Dec MC.Syntax Model.Names.
 Import ListNotations.
@@ -26,17 +25,13 @@ Definition in_addsub (o : opc) : bool :=            (* o in "+-" *)
   match o with PEmpty | PAdd | PSub => true | _ => false end.
 Definition in_muldivmod (o : opc) : bool :=         (* o in "*/%" *)
   match o with PEmpty | PMul | PDiv | PMod => true | _ => false end.
-Definition in_addmul (o : opc) : bool :=            (* o in "+*" *)
-  match o with PEmpty | PAdd | PMul => true | _ => false end.
-Definition in_muldiv (o : opc) : bool :=            (* o in "*/" *)
-  match o with PEmpty | PMul | PDiv => true | _ => false end.
 
 (* Operator.get_order: (order, is_left_precedence).  No content reaches the ValueError branch. *)
 Definition op_order (o : opc) : Z :=
   match o with PPow => 30 | _ => if in_muldivmod o then 20 else 10 end.
 Definition left_prec (o : opc) : bool := negb (opc_eqb o PPow).
-(* Operator.is_reflective *)
-Definition is_reflective (o : opc) : bool := in_addmul o.
+(* Operator.is_reflective: content in ("+", "*") *)
+Definition is_reflective (o : opc) : bool := match o with PAdd | PMul => true | _ => false end.
 (* Operator.is_same_group *)
 Definition is_same_group (a b : opc) : bool := opc_eqb a b || (in_addsub a && in_addsub b).
 
@@ -47,42 +42,19 @@ Definition sop_of_opc (o : opc) : sop :=
   end.
 
 (* ------------------------------------------------------------------ tags *)
-(* A tag marks a branch of the pinned code that can make the emitted commands differ from the
+(* A tag marks a branch of the code that can make the emitted commands differ from the
    meaning of the source expression (DESIGN.md 2.4).  tag_name is the identifier used in
-   known_findings.json ("match": {"tag": ...}). *)
+   known_findings.json ("match": {"tag": ...}).
+   After the C02 repairs (fixes/C02-01 .. C02-09) two branches are left:
+   the documented restriction of `**` and literals outside the 32-bit range. *)
 Inductive tag :=
-| T_neg_after_tight       (* tokens_to_tokens: `/ -v`, `% -v`, `** -v`, `/ -(..)` becomes `-1 * v` at the precedence of `*` *)
-| T_parse_pop_lower       (* expression_to_tree.process_stack pops operators of LOWER precedence than the incoming one *)
-| T_iop_leading_minus     (* var_operation.py:93-95 merges a leading `-` with the next token for compound forms *)
-| T_iop_inject            (* tree_to_operations: can_inject_iop turns `x op= (l o r)` into `(x op l) o r` *)
-| T_inject_reused_temp    (* tree_to_operations: the temporary that becomes the target was used as scratch before the target is read *)
-| T_sub_rewrite_fold      (* E1 - E2 is rewritten to E2*-1 + E1 but node.content stays "-": constant folding uses "-" *)
-| T_fold_pow_negbase      (* eval_expr("-3**2") = -9: Python parses the sign outside the power *)
 | T_pow_nonconst          (* `**` with a non-constant or negative exponent is rejected with a diagnostic *)
-| T_opt_final_minus       (* optimize_const final merge when the first constant's operator is "-": sign applied twice *)
-| T_opt_final_div         (* optimize_const final merge of divisors (c1*c2, or c1/c2 after "=") *)
-| T_opt_final_mod         (* optimize_const final merge `c1 % c2` across intervening operations *)
-| T_opt_swap_self         (* optimize_const turns `t = c; t op= t` into `t = t; t op= c` *)
-| T_opt_merge_self        (* optimize_const merges two constants across an operation `t op= t` (e.g. the squaring of `**`) *)
-| T_opt_mid_merge         (* optimize_const mid-list merge ignores the operator of the first constant *)
-| T_const_range           (* a constant outside what the command accepts is emitted (Python ints do not wrap) *)
-| T_crash_fold            (* eval_expr raises (ZeroDivisionError, SyntaxError) *)
-| T_fold_float            (* eval_expr leaves the integers (true division, negative exponent): the model stops *)
-| T_fold_nowrap           (* a folded constant leaves the 32-bit range: Python integers do not wrap *)
-| T_fold_huge.            (* a constant power too large for Python to print / convert (ValueError, OverflowError, MemoryError) *)           (* eval_expr leaves the integers (true division, negative exponent): the model stops *)
+| T_const_range.          (* a literal outside the 32-bit range reaches a command (the property assumes 32-bit literals) *)
 
 Definition tag_name (t : tag) : string :=
   match t with
-  | T_neg_after_tight => "neg_after_tight" | T_parse_pop_lower => "parse_pop_lower"
-  | T_iop_leading_minus => "iop_leading_minus" | T_iop_inject => "iop_inject"
-  | T_inject_reused_temp    (* tree_to_operations: the temporary that becomes the target was used as scratch before the target is read *)
-| T_sub_rewrite_fold => "sub_rewrite_fold" | T_fold_pow_negbase => "fold_pow_negbase"
   | T_pow_nonconst => "pow_nonconst"
-  | T_opt_final_minus => "opt_final_minus" | T_opt_final_div => "opt_final_div"
-  | T_opt_final_mod => "opt_final_mod" | T_opt_mid_merge => "opt_mid_merge"
-  | T_opt_swap_self => "opt_swap_self" | T_opt_merge_self => "opt_merge_self"
-  | T_const_range => "const_range" | T_crash_fold => "crash_fold" | T_fold_float => "fold_float"
-  | T_fold_nowrap => "fold_nowrap" | T_fold_huge => "fold_huge"
+  | T_const_range => "const_range"
   end%string.
 
 (* ------------------------------------------------------------------ outcomes *)
@@ -113,46 +85,34 @@ Notation "' p <- m ;; k" := (bind m (fun x => let 'p := x in k))
   (at level 61, p pattern, m at next level, right associativity).
 Notation "m ;;; k" := (bind m (fun _ => k)) (at level 61, right associativity).
 
-(* ------------------------------------------------------------------ eval_expr on the strings the pipeline builds *)
-(* Constants are Python strings holding decimal integers (eval_expr formats ints with %d and
-   integer-valued floats as ints); we keep their values.  Whatever leaves the integers (inexact
-   true division, negative exponent) or the range in which float() is exact is Unmodelled. *)
+(* ------------------------------------------------------------------ fold_constants (expression_eval.py) *)
+(* Constants are Python strings holding decimal integers; we keep their values.  fold_constants
+   calculates with 32-bit integers that wrap around, `/` and `%` rounding toward negative infinity;
+   None = "no result" (division by zero).  A negative exponent goes through Python floats: outside
+   the model, except 0 ** -n, which has no result. *)
 Definition FLOAT_EXACT : Z := 9007199254740992.     (* 2^53 *)
-Definition POW_CAP : Z := 256.
+Definition POW_CAP : Z := 256.                      (* expansion of `v ** n` is modelled up to this exponent *)
+Definition MODULUS : Z := 4294967296.
 
-Definition py_binop (o : opc) (a b : Z) : M Z :=
-  let chk (v : Z) : M Z := tell_if (negb (in_int32b v)) T_fold_nowrap ;;; ret v in
-  match o with
-  | PAdd => chk (a + b)
-  | PSub => chk (a - b)
-  | PMul => chk (a * b)
-  | PDiv => if b =? 0 then tell T_crash_fold ;;; crash "ZeroDivisionError"
-            else if negb (a mod b =? 0) then tell T_fold_float ;;; unmodelled "non-integer constant (true division)"
-            else if FLOAT_EXACT <? Z.abs (a / b) then tell T_fold_float ;;; unmodelled "float rounding (true division)"
-            else chk (a / b)
-  | PMod => if b =? 0 then tell T_crash_fold ;;; crash "ZeroDivisionError" else ret (a mod b)
-  | PPow => if b <? 0 then tell T_fold_float ;;; unmodelled "negative exponent (float)"
-            else if POW_CAP <? b then tell T_fold_huge ;;; unmodelled "huge exponent"
-            else chk (a ^ b)
-  | PEmpty => tell T_crash_fold ;;; crash "SyntaxError"
+(* pow(a, b, 2**32) for b > 0 *)
+Fixpoint powmod_pos (a : Z) (p : positive) : Z :=
+  match p with
+  | xH => a mod MODULUS
+  | xO p' => let r := powmod_pos a p' in (r * r) mod MODULUS
+  | xI p' => let r := powmod_pos a p' in (a * ((r * r) mod MODULUS)) mod MODULUS
   end.
+Definition powmod (a b : Z) : Z :=
+  match b with Zpos p => powmod_pos a p | _ => 1 end.
 
-(* value of the Python expression  <sign><c><o>[ ]<n>  where sign is "", "+" or "-",
-   c and n are decimal integers (possibly negative).  Python's grammar: a unary sign binds
-   tighter than + - * / % and looser than **.
-   ("+" needs ast.UAdd in eval_expr's OPERATORS: fixes/C02-evalexpr-unary-plus.patch) *)
-Definition apply_sign (sign : opc) (v : Z) : Z := match sign with PSub => - v | _ => v end.
+Inductive folded := FVal (z : Z) | FNone | FFloat.
 
-Definition py_eval3 (sign : opc) (c : Z) (o : opc) (n : Z) : M Z :=
+Definition fold_constants (o : opc) (a b : Z) : folded :=
   match o with
-  | PPow =>
-      (* [sign] [-] |c| ** n : every sign is applied after the power *)
-      v <- py_binop PPow (Z.abs c) n ;;
-      tell_if ((c <? 0) && Z.even n) T_fold_pow_negbase ;;;
-      ret (apply_sign sign (if c <? 0 then - v else v))
-  | PEmpty =>
-      (* "c n": a syntax error unless n is negative, then it reads as c - |n| *)
-      if n <? 0 then ret (apply_sign sign c + n) else tell T_crash_fold ;;; crash "SyntaxError"
-  | _ => py_binop o (apply_sign sign c) n
+  | PAdd => FVal (wrap (a + b))
+  | PSub => FVal (wrap (a - b))
+  | PMul => FVal (wrap (a * b))
+  | PDiv => if b =? 0 then FNone else FVal (wrap (a / b))
+  | PMod => if b =? 0 then FNone else FVal (wrap (a mod b))
+  | PPow => if b <? 0 then (if a =? 0 then FNone else FFloat) else FVal (wrap (powmod a b))
+  | PEmpty => FNone     (* ValueError: never reached *)
   end.
-Definition py_eval2 (c : Z) (o : opc) (n : Z) : M Z := py_eval3 PEmpty c o n.
